@@ -6,7 +6,7 @@
 From Coq Require Import ZArith List Bool Lia.
 From Coq Require Import Floats.SpecFloat.
 From PV Require Import Lib.PyBase Lib.Reflect Spec.Cal Spec.TdFloat Model.FormatterBase Gen.FormatterTables Gen.LocaleTables Model.Formatter
-                       Model.FormatterPrims Gen.FormatterMethods.
+                       Model.FormatterPrims Gen.FormatterMethods Proofs.FormatterOffsetFacts.
 Import ListNotations.
 Open Scope Z_scope.
 
@@ -22,26 +22,6 @@ Proof.
   - unfold need_int. destruct (l_first_day loc); reflexivity.
   - unfold need_int. destruct (l_first_day loc); reflexivity.
   - destruct (12 <=? q_hour (fq_of t)); reflexivity.
-Qed.
-
-(* ------------------------------------------------------------------ the offset: float code = integer arithmetic *)
-Definition offset_agrees (off : Z) : bool :=
-  let m := fdiv (total_seconds (off * 1000000)) (sf_of_Z 60) in
-  match py_int_trunc m with
-  | Ok k => (k =? Z.quot off 60) && Bool.eqb (fge m (sf_of_Z 0)) (0 <=? off)
-  | Raise _ => false
-  end.
-
-Lemma offset_agrees_all : forall_range offset_agrees (-86399) 86400 = true.
-Proof. vm_compute. reflexivity. Qed.
-
-Lemma offset_float_code : forall off, -86400 < off < 86400 ->
-  py_int_trunc (fdiv (total_seconds (off * 1000000)) (sf_of_Z 60)) = Ok (Z.quot off 60) /\
-  fge (fdiv (total_seconds (off * 1000000)) (sf_of_Z 60)) (sf_of_Z 0) = (0 <=? off).
-Proof.
-  intros off H. pose proof (forall_range_spec _ _ _ offset_agrees_all off ltac:(lia)) as K. unfold offset_agrees in K. cbv zeta in K.
-  destruct (py_int_trunc _) as [k|e]; [|discriminate]. apply andb_true_iff in K. destruct K as [K1 K2].
-  apply Z.eqb_eq in K1. apply Bool.eqb_prop in K2. subst k. split; [reflexivity | exact K2].
 Qed.
 
 Theorem gen_format_token_eq : forall rec loc t tok, -86400 < t_off t < 86400 ->
